@@ -58,6 +58,21 @@ CLAIMS["C10"] = _claim("ClusterStore.tla: all interleavings of load/promote/demo
                        "schedules executed on the real Cluster class with byte comparison of the files around every operation; "
                        "promote/status events of whole submissions.", "5-C10")
 
+CLAIMS["C11"] = ("fault_enumeration",
+                 "Systematic single-fault sweep on the real code: every submitter process of base schedules x every boundary "
+                 "operation (fault mode: every file mutation) x {SIGKILL, failed lock acquisition, failed write} x both lock-"
+                 "library policies, followed by the other nodes' rounds and user try-submit-jobs; failed scheduler queries; "
+                 "every recorded trace validated by TLC against the C11 clauses of JadeMonitor (OnePlacement, OneLaunch, "
+                 "StartAfterBlockers, RowsNeverLost, FreshBatchIndex, SqueueFailureHarmless).", "5-C11", _NOTE,
+                 "fault enumeration on the real code + TLC trace validation against JadeMonitor")
+CLAIMS["C12"] = ("fault_enumeration",
+                 "Every subset (<=3) of batches failing at sbatch, a node killed at every operation of every runner (fault mode: "
+                 "every lock operation and file mutation), the same while a user's try-submit-jobs is held at each of its "
+                 "operations, dependency cycles, random node faults; documented recovery; traces validated by TLC against "
+                 "MissingExact, NoFabricatedResult, FinishedKeepResults, StartAfterBlockers, CompletesAfterRecovery. K1 is a "
+                 "listed known finding.", "5-C12", _NOTE,
+                 "fault enumeration on the real code + TLC trace validation against JadeMonitor")
+
 NOT_YET = "check not built yet in this round (the specification and harness are being extended property by property)"
 
 
